@@ -190,6 +190,15 @@ def rule_capacity(ctx: Ctx) -> None:
                 ctx.ob("C16-1", "G1", m, st, covered and (fact or (by_call and atomic)),
                        f"PageCache.{m.name}: a page is inserted only in the atomic step in which room was established (len < capacity re-checked after the last suspension)")
     need(n_ins >= 3, f"C16-1: expected >= 3 PageCache insertion sites, found {n_ins}")
+    # a page loaded from disk (inserted clean) never replaces a page that is already cached — it may have been written dirty while the read was suspended
+    for m in pc.methods.values():
+        mf = ctx.flow(m)
+        for st in walk_stmts(m.node.body):
+            if isinstance(st, ast.Assign) and isinstance(st.targets[0], ast.Subscript) and path_of(st.targets[0].value) == "self._pages" and isinstance(st.value, ast.Call) \
+                    and not any(k.arg == "dirty" for k in st.value.keywords):
+                key = unparse(st.targets[0].slice)
+                ok = mf.holds_at(node_of(mf.cfg, st), Fact("notin", key, "self._pages"))
+                ctx.ob("C16-3", "G5", m, st, ok, f"PageCache.{m.name}: a clean page is inserted only if the id is (still) not cached after the disk read — otherwise it would replace a page written dirty meanwhile and lose that write")
 
 
 # ---------------------------------------------------------------------------------------------------------
@@ -664,6 +673,7 @@ def run(ctx: Ctx) -> None:
 
 
 MUTANTS = [
+    ("readahead-overwrites-cached-page", PC, "                if ahead_id not in self._pages and len(self._pages) < self._capacity:\n                    self._pages[ahead_id]", "                if len(self._pages) < self._capacity:\n                    self._pages[ahead_id]", "C16-3"),
     # capacity
     ("cachedstore-evict-off-by-one", CS, "            while len(self._cache) >= self._cache_capacity:", "            while len(self._cache) > self._cache_capacity:", "C16-1"),
     ("cachedstore-evict-once", CS, "                self._dirty_keys.discard(evict_key)\n                self._evictions += 1\n", "                self._dirty_keys.discard(evict_key)\n                self._evictions += 1\n                break\n", "C16-1"),
